@@ -302,7 +302,8 @@ def sign_events(args):
     return events
 
 
-KEY_FORMS = ["derived", "precomputed", "own-curve-object-lazy-table", "legacy-affine", "own-curve-object-eager-table", "pickled"]
+KEY_FORMS = ["derived", "precomputed", "own-curve-object-lazy-table", "legacy-affine", "own-curve-object-eager-table", "pickled",
+             "no-order-jacobian", "no-order-affine-precomputed", "own-curve-object-without-cofactor"]
 
 
 def key_form(cid, curve, d, form):
@@ -322,6 +323,17 @@ def key_form(cid, curve, d, form):
         return vk
     if name == "legacy-affine":
         return VerifyingKey.from_public_point(ec.Point(curve.curve, x, y, n), curve, hashfunc=IdHash)
+    if name == "no-order-jacobian":          # point objects that do not carry the group order
+        z = 2 + (d % (p - 2))
+        return VerifyingKey.from_public_point(ec.PointJacobi(curve.curve, x * z * z % p, y * z * z * z % p, z), curve, hashfunc=IdHash)
+    if name == "no-order-affine-precomputed":
+        vk = VerifyingKey.from_public_point(ec.Point(curve.curve, x, y), curve, hashfunc=IdHash)
+        vk.precompute()
+        return vk
+    if name == "own-curve-object-without-cofactor":
+        vk = VerifyingKey.from_public_point(ec.PointJacobi(ec.CurveFp(p, a, b), x, y, 1, n), curve, hashfunc=IdHash)
+        vk.precompute()
+        return vk
     # an equal CurveFp object of its own (as after unpickling / in another module), operand scaled with z != 1
     cf2 = ec.CurveFp(p, a, b, h)
     z = 2 + (d % (p - 2))
